@@ -24,6 +24,7 @@ partial def parseV : List String → Option (V × List String)
   | "T" :: n :: r => do let (is, r') ← parseItems 0 (← n.toNat?) r; some (V.struct is, r')
   | "L" :: n :: r => do let (is, r') ← parseItems 1 (← n.toNat?) r; some (V.slice is, r')
   | "M" :: n :: r => do let (is, r') ← parseItems 2 (← n.toNat?) r; some (V.map is, r')
+  | "A" :: n :: r => do let (is, r') ← parseItems 1 (← n.toNat?) r; some (V.slice is, r')   -- []interface{}: elements are `I …` or `N`
   | _ => none
 partial def parseItems (kind : Nat) : Nat → List String → Option (Items × List String)
   | 0, r => some (.nil, r)
